@@ -961,6 +961,15 @@ class Interp:
                 return Raised(short, args)
         if name in ("itertools.zip_longest", "zip_longest"):
             return list(itertools.zip_longest(*args, **kwargs))
+        if name.startswith("itertools.") and short in ("chain", "islice", "product", "repeat", "starmap", "takewhile", "dropwhile", "pairwise", "accumulate"):
+            if short == "repeat" and len(args) + len(kwargs) < 2:
+                raise AnalysisError("itertools.repeat without a count is not modelled")
+            if any(isinstance(a, (Obj, Closure, Bound, FunctionInfo)) for a in args):
+                raise AnalysisError(f"itertools.{short} over abstract objects / callables not modelled")
+            try:
+                return list(getattr(itertools, short)(*args, **kwargs))
+            except NATIVE_EXC as ex:
+                raise Raised(type(ex).__name__) from None
         if name in ("typing.cast", "cast"):
             return args[1]
         if short == "suppress":
